@@ -12,31 +12,55 @@ open Qfx
 theorem enqAll_append (s : Sess) (a b : List OutMsg) : enqAll s (a ++ b) = enqAll (enqAll s a) b := by
   simp [enqAll, List.foldl_append]
 
+theorem enqueueAndSend_replyLast (s : Sess) (m : OutMsg) : (enqueueAndSend s m).replyLast = s.replyLast := by
+  unfold enqueueAndSend sendQueued Sess.setToSend
+  simp only []
+  repeat' split
+  all_goals rfl
+
+theorem enqAll_replyLast (s : Sess) (l : List OutMsg) : (enqAll s l).replyLast = s.replyLast := by
+  induction l generalizing s with
+  | nil => rfl
+  | cons m rest ih => show (enqAll (enqueueAndSend s m) rest).replyLast = _; rw [ih, enqueueAndSend_replyLast]
+
+theorem foldl_enq_replyLast (s : Sess) (l : List OutMsg) : (List.foldl enqueueAndSend s l).replyLast = s.replyLast :=
+  enqAll_replyLast s l
+
+/-- without tag 369 the tagged plan is the plain one -/
+theorem Rep.outR_none (r : Rep) : Rep.outR none r = Rep.out r := by cases r <;> rfl
+theorem replyPlanR_none (p : Bool) (st : Store) (b e : Int) : replyPlanR none p st b e = replyPlan p st b e := by
+  unfold replyPlanR replyPlan
+  exact List.map_congr_left (fun r _ => Rep.outR_none r)
+/-- the tag is all that differs -/
+theorem Rep.outR_view (l : Option Int) (r : Rep) :
+    (Rep.outR l r).kind = (Rep.out r).kind ∧ (Rep.outR l r).seq = (Rep.out r).seq ∧ (Rep.outR l r).f = (Rep.out r).f := by
+  cases r <;> exact ⟨rfl, rfl, rfl⟩
+
 theorem resendLoop_eq (s : Sess) (a b : Int) (l : List (Int × OutMsg)) :
-    resendLoop s a b l = (enqAll s (replayPlan a b l).1, (replayPlan a b l).2) := by
+    resendLoop s a b l = (enqAll s (replayPlanR s.replyLast a b l).1, (replayPlanR s.replyLast a b l).2) := by
   induction l generalizing s a b with
-  | nil => simp [resendLoop, replayPlan, replayReps, enqAll]
+  | nil => simp [resendLoop, replayPlanR, replayReps, enqAll]
   | cons p rest ih =>
     obtain ⟨n, m⟩ := p
-    simp only [resendLoop, replayPlan, replayReps]
+    simp only [resendLoop, replayPlanR, replayReps]
     split
     · rw [ih]; rfl
     · split
       · rw [ih]; rfl
       · rw [ih]
-        simp only [replayPlan, closeGap]
-        split <;> simp [enqAll, Rep.out]
+        simp only [replayPlanR, closeGap]
+        split <;> simp [enqAll, Rep.outR, gapFillR, enqueueAndSend_replyLast]
 
 theorem resendMessages_eq (s : Sess) (b e : Int) :
-    resendMessages s b e = enqAll s (replyPlan s.cfg.persist s.store b e) := by
-  unfold resendMessages replyPlan replyReps
+    resendMessages s b e = enqAll s (replyPlanR s.replyLast s.cfg.persist s.store b e) := by
+  unfold resendMessages replyPlanR replyReps
   split
   · rfl
   · split
-    · simp [enqAll, Rep.out]
+    · simp [enqAll, Rep.outR, gapFillR]
     · rw [resendLoop_eq]
-      simp only [closeReps, replayPlan, closeGap]
-      split <;> simp_all [enqAll, Rep.out, List.foldl_append]
+      simp only [closeReps, replayPlanR, closeGap]
+      split <;> simp_all [enqAll, Rep.outR, gapFillR, List.foldl_append, foldl_enq_replyLast]
 
 /-- write `ms` to the connection: the queue is gone -/
 def Sess.wrote (s : Sess) (ms : List OutMsg) : Sess := { s with log := (ms.map Obs.wire).reverse ++ s.log, toSend := [] }
@@ -479,9 +503,9 @@ theorem checkTooHigh_store (s x : Sess) (m : InMsg) (h : x.store.target = s.stor
   unfold checkTooHigh; rw [h]
 
 theorem resendMessages_shape (s : Sess) (b e : Int) (ho : s.out = true) (hq : s.toSend = []) :
-    resendMessages s b e = { s with log := ((replyPlan s.cfg.persist s.store b e).map Obs.wire).reverse ++ s.log } := by
+    resendMessages s b e = { s with log := ((replyPlanR s.replyLast s.cfg.persist s.store b e).map Obs.wire).reverse ++ s.log } := by
   rw [resendMessages_eq]
-  cases hp : replyPlan s.cfg.persist s.store b e with
+  cases hp : replyPlanR s.replyLast s.cfg.persist s.store b e with
   | nil => simp [enqAll]
   | cons m rest =>
     rw [enqAll_out s m rest ho]
